@@ -356,6 +356,25 @@ def replay_real(case):
                     bad.append(f'collapse of {r}: mean {col.values[bi]} interval [{lo},{hi})')
                     break
     else:
+        m_ = case.get('model') or {}
+        if 'f0' in m_ and 'ref' in m_:
+            # the solver's counterexample first (exact rationals -> nearest doubles)
+            ref = float(m_['ref'])
+            n_ = case.get('n', 1)
+            f = np.array([float(m_['f0']), *[ref * q for q in (2.0, 2.5, 1.0 / 3.0)][: n_ - 1]])
+            da = sc.DataArray(sc.array(dims=['time'], values=f, unit='Hz'), coords={'time': sc.arange('time', len(f), unit='s')})
+            out = flt.filter_in_phase(da, reference=sc.scalar(ref, unit='Hz'), rtol=sc.scalar(1e-3))
+
+            def near0(v):
+                from fractions import Fraction as F
+                q = F(v) / F(ref)
+                if abs(round(q) - q) < F(1e-3):
+                    return True
+                return v != 0 and abs(round(1 / q) - 1 / q) < F(1e-3)
+            want = [v for v in f if near0(v)]
+            if list(out.values) != want:
+                bad.append(f'filter_in_phase(reference={ref!r}, rtol=1e-3) kept {list(out.values)} of {f.tolist()}, expected {want}')
+                return {'reproduced': True, 'detail': bad[0]}
         for trial in range(300):
             ref = 14.0
             f = np.array([rng.choice([ref * m for m in (1, 2, 3)] + [ref / m for m in (2, 3)] + [0.0, -ref]) * (1 + rng.choice([0, 5e-4, -5e-4, 2e-3, -2e-3])) for _ in range(5)])
